@@ -119,6 +119,47 @@ Definition agg_refs (w : list expr) (ks : list (string * string)) (ag : list (ag
   flat_map ecols w ++ map fst ks
   ++ flat_map (fun a => match fst a with ASum c => [c] | ACountStar => [] end) ag.
 
+(** With an EMPTY schema sqlglot expands references to select aliases before it resolves columns
+    (qualify_columns: `schema.empty` => early _expand_alias_refs): an unqualified column of WHERE /
+    GROUP BY / a later select item whose name equals an output alias is replaced by that alias's
+    expression -- also when the name is a real input column. *)
+Fixpoint subst_expr (m : list (string * expr)) (e : expr) : expr :=
+  match e with
+  | ECol n => match assoc n m with Some x => x | None => e end
+  | ELit _ => e
+  | EBin o a b => EBin o (subst_expr m a) (subst_expr m b)
+  | ENot a => ENot (subst_expr m a)
+  | ENeg a => ENeg (subst_expr m a)
+  | EIsNull a => EIsNull (subst_expr m a)
+  | EIf c t e' => EIf (subst_expr m c) (subst_expr m t) (subst_expr m e')
+  | ECoalesce a b => ECoalesce (subst_expr m a) (subst_expr m b)
+  end.
+Fixpoint expand_items (m : list (string * expr)) (items : list (expr * string))
+  : list (expr * string) * list (string * expr) :=
+  match items with
+  | [] => ([], m)
+  | (e, a) :: rest =>
+      let e' := subst_expr m e in
+      let '(rest', m') := expand_items ((a, e') :: m) rest in
+      ((e', a) :: rest', m')
+  end.
+(** an aggregate that lands in WHERE / GROUP BY makes the engine reject the query *)
+Definition agg_in_where : list expr := [ECol "<aggregate in WHERE or GROUP BY>"].
+
+Definition early_alias_expansion (q : sq) : sq :=
+  match q with
+  | QSel f w (Some items) d =>
+      let '(items', m) := expand_items [] items in
+      QSel f (map (subst_expr m) w) (Some items') d
+  | QSel _ _ None _ => q
+  | QAgg f w ks ag =>
+      let aggal := map snd ag in
+      let km := rev (map (fun k => (snd k, ECol (fst k))) ks) in
+      if existsb (fun r => mem r aggal) (flat_map ecols w) || existsb (fun k => mem (fst k) aggal) ks
+      then QAgg f agg_in_where ks ag
+      else QAgg f (map (subst_expr km) w) ks ag
+  end.
+
 Fixpoint qualify_sq (info : colinfo) (ne : bool) (q : sq) : option sq :=
   match q with
   | QSel f w sel d =>
@@ -126,19 +167,21 @@ Fixpoint qualify_sq (info : colinfo) (ne : bool) (q : sq) : option sq :=
       | None => None
       | Some f' =>
           if refs_ok info ne f (sel_refs w sel)
-          then Some (QSel f' w (match sel with
-                                | None => if is_join f then None
-                                          else match from_cols info f with
-                                               | Some cs => Some (passthrough cs)
-                                               | None => None
-                                               end
-                                | s => s end) d)
+          then Some ((if ne then fun x => x else early_alias_expansion)
+                       (QSel f' w (match sel with
+                                   | None => if is_join f then None
+                                             else match from_cols info f with
+                                                  | Some cs => Some (passthrough cs)
+                                                  | None => None
+                                                  end
+                                   | s => s end) d))
           else None
       end
   | QAgg f w ks ag =>
       match qualify_from info ne f with
       | None => None
-      | Some f' => if refs_ok info ne f (agg_refs w ks ag) then Some (QAgg f' w ks ag) else None
+      | Some f' => if refs_ok info ne f (agg_refs w ks ag)
+                   then Some ((if ne then fun x => x else early_alias_expansion) (QAgg f' w ks ag)) else None
       end
   end
 with qualify_from (info : colinfo) (ne : bool) (f : from) : option from :=
